@@ -6,7 +6,10 @@
 //	echo '{"Replace":{"/repo/internal/http3/zz_c35_findings_test.go":"/verif/findings/C35_stream_framing_test.go"}}' > /tmp/ov.json
 //	cd /repo && /verif/tools/go.sh test -overlay /tmp/ov.json -vet=off -run 'TestC35Finding' -v ./internal/http3/
 //
-// Each test FAILS on the pinned tree and describes the expected behaviour.
+// Each test FAILED on the pinned tree and describes the expected behaviour.
+// TestC35FindingUnknownFrameBeforeHeadersNotSkipped (root cause A) passes since
+// /repo commit 5ee1338; the other three (root cause B, see C35_fix_B.diff) are
+// listed in known_findings.txt and still fail.
 package http3
 
 import (
